@@ -44,11 +44,14 @@ def grp_of(n: int, a: int, h: int) -> int:
 
 
 class RibRig:
-    def __init__(self, cache_on: bool = True) -> None:
+    def __init__(self, cache_on: bool = True, grouped: bool = True) -> None:
         AttributeCollection.cached = None
         AttributeCollection.previous = b''
         self.cfg, self.neighbor = sessions.make_config(families='ipv4 unicast ipv6 unicast')
         self.neighbor.rib.outgoing.cache = cache_on
+        # `group-updates false`: one UPDATE per NLRI for every family (the events are handed out one per
+        # tick anyway, so the model does not see the difference: what reaches the peer must be the same)
+        self.neighbor.group_updates = grouped
         self.neg_out = sessions.negotiate(self.neighbor, direction=Direction.OUT)
         self.neg_in = sessions.negotiate(self.neighbor, direction=Direction.IN)
         self.peer, self.proto = sessions.make_peer(self.neighbor, self.neg_out)
